@@ -62,6 +62,24 @@ def make_reactor(log, holder):
     return R()
 
 
+def launch_it(c, cfg_dir, reactor, log, creator, user_dir):
+    import txtorcon
+    if cfg_dir is not None:
+        # the deprecated launch_tor(config, …): the caller's own TorConfig names a (populated) DataDirectory, the ports travel on it too
+        with open(os.path.join(cfg_dir, 'state'), 'w') as f:
+            f.write('precious\n')
+        config = txtorcon.TorConfig()
+        config.DataDirectory = cfg_dir
+        config.ControlPort = 9151
+        config.SocksPort = 9050
+        return txtorcon.launch_tor(config, reactor, progress_updates=lambda p, t, s: log.append('progress:%d' % p),
+                                   timeout=(30 if c['timeout'] else None), tor_binary='/bin/true', connection_creator=creator,
+                                   kill_on_stderr=c['kill'])
+    return txtorcon.launch(reactor, progress_updates=lambda p, t, s: log.append('progress:%d' % p), control_port=9151, socks_port=9050,
+                           data_directory=user_dir, timeout=(30 if c['timeout'] else None), tor_binary='/bin/true',
+                           connection_creator=creator, kill_on_stderr=c['kill'])
+
+
 def run_impl(c):
     from twisted.internet import defer, error
     from twisted.python.failure import Failure
@@ -75,7 +93,15 @@ def run_impl(c):
     if c['user_dir'] == 'fresh':
         # a directory the caller names but has not created: launch() creates it, and it is still the caller's
         user_parent, user_dir = user_dir, os.path.join(user_dir, 'data')
-    before = set(os.listdir(tempfile.gettempdir()))
+    # the temporary directory launch() makes is recognised by watching tempfile.mkdtemp during the call (other processes may
+    # create tortmp* directories in the same place at the same time)
+    made_tmp = []
+    real_mkdtemp = tempfile.mkdtemp
+
+    def watching_mkdtemp(*a, **kw):
+        d_ = real_mkdtemp(*a, **kw)
+        made_tmp.append(d_)
+        return d_
 
     def creator():
         d = defer.Deferred()
@@ -85,26 +111,16 @@ def run_impl(c):
     result = []
     cfg_dir = None
     if c.get('cfg_dir') and not c['user_dir']:
-        # the deprecated launch_tor(config, …): the caller's own TorConfig names a (populated) DataDirectory, the ports travel on it too
-        cfg_dir = tempfile.mkdtemp(prefix='c19cfg')
-        with open(os.path.join(cfg_dir, 'state'), 'w') as f:
-            f.write('precious\n')
-        before = set(os.listdir(tempfile.gettempdir()))
-        config = txtorcon.TorConfig()
-        config.DataDirectory = cfg_dir
-        config.ControlPort = 9151
-        config.SocksPort = 9050
-        d = txtorcon.launch_tor(config, reactor, progress_updates=lambda p, t, s: log.append('progress:%d' % p),
-                                timeout=(30 if c['timeout'] else None), tor_binary='/bin/true', connection_creator=creator,
-                                kill_on_stderr=c['kill'])
-    else:
-        d = txtorcon.launch(reactor, progress_updates=lambda p, t, s: log.append('progress:%d' % p), control_port=9151, socks_port=9050,
-                            data_directory=user_dir, timeout=(30 if c['timeout'] else None), tor_binary='/bin/true',
-                            connection_creator=creator, kill_on_stderr=c['kill'])
+        cfg_dir = real_mkdtemp(prefix='c19cfg')
+    tempfile.mkdtemp = watching_mkdtemp
+    try:
+        d = launch_it(c, cfg_dir, reactor, log, creator, user_dir)
+    finally:
+        tempfile.mkdtemp = real_mkdtemp
     d.addCallbacks(lambda r: result.append('ok'), lambda f: result.append('fail') and None)
     pp = holder['pp']
-    created = [p for p in set(os.listdir(tempfile.gettempdir())) - before if p.startswith('tortmp')]
-    tmpdir = os.path.join(tempfile.gettempdir(), created[0]) if created else None
+    created = [p for p in made_tmp if os.path.basename(p).startswith('tortmp')]
+    tmpdir = created[0] if created else None
     rid = [1]
     seen_cmds = {}
     timed = [False]
